@@ -606,6 +606,7 @@ func c08R2(ic *IC, r *Report) {
 		r.Errorf("R08.2: found %d activations of runCfg (%d by go); expected the interpreted-call, closure, wrapper and goroutine forms", sites, gos)
 	}
 	c08GoArgs(ic, r)
+	freshFrameSlots(ic, r, "R08.2")
 	// newFrame and clone must allocate: every return value is a fresh &frame{} composite.
 	for _, name := range []string{"newFrame"} {
 		f := ic.ssaFunc(name)
